@@ -595,6 +595,20 @@ func ruleVALEXACT(c *Ctx, r *Report) {
 				if allowed(a) {
 					okLast = true
 				}
+				// a predicate on the whole node (missingLeft(e), hasRight(e)): judged by what it tests
+				if a.Kind == "call" && a.Fn != nil && inModule(a.Fn) && a.Val == "$0" {
+					if exp := c.expand([]Atom{a}, nil); len(exp) > 1 {
+						all := true
+						for _, x := range exp[1:] {
+							if !allowed(x) {
+								all = false
+							}
+						}
+						if all {
+							okLast = true
+						}
+					}
+				}
 			}
 			key := fmt.Sprintf("%s|error@%s", fnName(e.Fn), c.retOrdinal(e.Fn, p.Ret))
 			if okLast {
